@@ -12,21 +12,21 @@ open Pulsar
 /-! ### feature names -/
 
 /-- A name that is neither registered nor "all" makes `findFeatures` (hence `NewGenerator`, hence the
-    plugin) answer with an error — provided the loop reaches it, i.e. no "all" stands before it. -/
+    plugin) answer with an error — wherever it stands in the list (also behind an "all"). -/
 theorem C12_unknown_feature_is_error (reg : List (String × Bool)) (pre post : List String) (n : String)
     (o : List (String × Bool) → List (String × Bool))
-    (hall : "all" ∉ pre) (hn : n ≠ "all") (hl : reg.lookup n = none) :
+    (hn : n ≠ "all") (hl : reg.lookup n = none) :
     ∃ e, findFeatures reg (pre ++ n :: post) o = .error e := by
-  obtain ⟨e, he⟩ := collect_unknown reg n post hn hl pre [] hall
+  obtain ⟨e, he⟩ := collect_unknown reg n post hn hl pre false []
   exact ⟨e, by simp [findFeatures, he]⟩
 
 /-- the same for the features the plugin registers: anything but "all", "fast", "protoc" -/
 theorem C12_unknown_feature_is_error_registered (pre post : List String) (n : String)
     (o : List (String × Bool) → List (String × Bool))
-    (hall : "all" ∉ pre) (hn : n ∉ ["all", "fast", "protoc"]) :
+    (hn : n ∉ ["all", "fast", "protoc"]) :
     ∃ e, findFeatures registered (pre ++ n :: post) o = .error e := by
   simp only [List.mem_cons, List.not_mem_nil, or_false, not_or] at hn
-  apply C12_unknown_feature_is_error registered pre post n o hall hn.1
+  apply C12_unknown_feature_is_error registered pre post n o hn.1
   rw [List.lookup_eq_none_iff]
   intro p hp
   simp only [registered, List.mem_cons, List.not_mem_nil, or_false] at hp
@@ -45,7 +45,7 @@ theorem C12_known_features_ok (reg : List (String × Bool)) (names : List String
     (o : List (String × Bool) → List (String × Bool))
     (h : ∀ n ∈ names, n = "all" ∨ (reg.lookup n).isSome = true) :
     ∃ fs, findFeatures reg names o = .ok fs := by
-  obtain ⟨r, hr⟩ := collect_known reg names [] h
+  obtain ⟨r, hr⟩ := collect_known reg names false [] h
   exact ⟨sortByName (o r), by simp [findFeatures, hr]⟩
 
 /-- … and without "all", exactly the requested features run. -/
@@ -55,7 +55,7 @@ theorem C12_selected_are_requested (reg : List (String × Bool)) (names : List S
     ∀ k, k ∈ featureNames fs ↔ k ∈ names := by
   intro k
   unfold findFeatures at h
-  cases hc : collect reg names [] with
+  cases hc : collect reg names false [] with
   | error e => rw [hc] at h; cases h
   | ok r =>
     rw [hc] at h
@@ -66,15 +66,28 @@ theorem C12_selected_are_requested (reg : List (String × Bool)) (names : List S
     rw [hp.mem_iff, collect_keys_mem reg names [] r hall hc k]
     simp [keys]
 
-/-- "all" selects every registered feature. -/
-theorem C12_all_selects_registered (ns : List String) (o : List (String × Bool) → List (String × Bool)) :
-    findFeatures registered ("all" :: ns) o = .ok (sortByName (o registered)) := rfl
+/-- "all" selects every registered feature — when the names that follow it are known as well (they
+    are validated like any other name). -/
+theorem C12_all_selects_registered (ns : List String) (o : List (String × Bool) → List (String × Bool))
+    (h : ∀ n ∈ ns, n = "all" ∨ (registered.lookup n).isSome = true) :
+    findFeatures registered ("all" :: ns) o = .ok (sortByName (o registered)) := by
+  have hc : collect registered ("all" :: ns) false [] = .ok registered :=
+    collect_all registered ("all" :: ns) false []
+      (fun n hn => by
+        rcases List.mem_cons.1 hn with e | e
+        · exact Or.inl e
+        · exact h n e)
+      (Or.inr (by simp))
+  simp [findFeatures, hc]
 
-/-- FINDING (logged): names that follow "all" are never looked at, so `features=all+nosuch` is served
-    although `features=nosuch+all` and `features=fast+nosuch` are errors. -/
-theorem C12_names_after_all_unchecked :
-    findFeatures registered (parseFeatures (some "all+nosuch")) id = .ok [("fast", true), ("protoc", false)] ∧
-    findFeatures registered (parseFeatures (some "nosuch+all")) id = .error "nosuch" := ⟨rfl, rfl⟩
+/-- Names that follow "all" are validated too (the former finding `all+nosuch` is fixed):
+    `features=all+nosuch` is an error like `features=nosuch+all` and `features=fast+nosuch`. -/
+theorem C12_unknown_after_all_is_error :
+    ∃ e, findFeatures registered (parseFeatures (some "all+nosuch")) id = .error e := ⟨"nosuch", rfl⟩
+
+/-- … while "all" together with registered names is served and selects every registered feature. -/
+theorem C12_all_with_known_names_ok :
+    findFeatures registered (parseFeatures (some "all+fast")) id = .ok [("fast", true), ("protoc", false)] := rfl
 
 /-! ### which files come back -/
 
@@ -209,6 +222,10 @@ example : findFeatures registered (parseFeatures (some "fast+nosuch")) id = .err
 example : findFeatures registered (parseFeatures (some "all")) id = .ok [("fast", true), ("protoc", false)] := rfl
 example : findFeatures registered (parseFeatures (some "fast+fast")) id = .ok [("fast", true)] := rfl
 example : findFeatures registered (parseFeatures (some "")) id = .error "" := rfl
+example : findFeatures registered (parseFeatures (some "all+nosuch")) id = .error "nosuch" := rfl
+example : findFeatures registered (parseFeatures (some "nosuch+all")) id = .error "nosuch" := rfl
+example : findFeatures registered (parseFeatures (some "fast+all")) id = .ok [("fast", true), ("protoc", false)] := rfl
+example : findFeatures registered (parseFeatures (some "all+all")) id = .ok [("fast", true), ("protoc", false)] := rfl
 example : (generateFile [("fast", true), ("protoc", false)] [] [] ⟨true, true, "p", "pkg"⟩).1 = ⟨true, ["fast", "protoc"], [0]⟩ := by decide
 example : (generateFile [("fast", true), ("protoc", false)] [] [] ⟨true, false, "p", "pkg"⟩).1.emitted = false := by decide
 example : (generateFile [("protoc", false)] [] [] ⟨true, true, "p", "pkg"⟩).1.emitted = false := by decide
@@ -226,7 +243,8 @@ end Pulsar.Gen
 #print axioms Pulsar.Gen.C12_known_features_ok
 #print axioms Pulsar.Gen.C12_selected_are_requested
 #print axioms Pulsar.Gen.C12_all_selects_registered
-#print axioms Pulsar.Gen.C12_names_after_all_unchecked
+#print axioms Pulsar.Gen.C12_unknown_after_all_is_error
+#print axioms Pulsar.Gen.C12_all_with_known_names_ok
 #print axioms Pulsar.Gen.C12_emitted_iff
 #print axioms Pulsar.Gen.C12_proto2_file_produces_nothing
 #print axioms Pulsar.Gen.C12_unrequested_file_produces_nothing
